@@ -84,6 +84,17 @@ CHECKS.update({
    note="Trusted: the reference (engine/seqx/c12.cpp, from docs/api/formatters.md and the property text); printable-ASCII category/file/function."),
 })
 
+CHECKS.update({
+ "C13": dict(engine="seqx", level=EX, design="§7 C13",
+   technique="bounded-exhaustive enumeration of inputs (all strings up to the length bound over a 46-symbol adversarial Unicode alphabet in message / attribute-value / attribute-name position, typed values, source-location strings) on the real JsonFormatter; Python json as independent parser, field-by-field oracle",
+   text="Every string up to the length bound over 46 code points (all C0 controls, quote, backslash, DEL, C1, U+2028/9, non-characters, astral) is fed as message text, as string attribute value and as attribute name, together with a typed-value family (integers to +-2^53, doubles, bools, nested lists/maps) alone and in all ordered pairs and null/empty/printable source-location strings, through compact and indented mode; each output must parse as exactly one JSON object without duplicate keys, carry exactly the built-in + custom keys, return every value unchanged, and (compact) contain no LF/CR. Says nothing about strings beyond the bound or symbols outside the alphabet.",
+   note="Trusted: Python's json module as the judge; the expectation is written by a 10-line ASCII-only JSON writer in the harness from the inputs; TZ=UTC."),
+ "C18": dict(engine="seqx", level=EX, design="§7 C18",
+   technique="bounded-exhaustive enumeration of inputs (message strings over the adversarial alphabet, category/type/function/file products, all 256 subsets of the routed attribute names, the 100-code-unit cut family, clock boundary family under four time zones, identical-message bursts) on the real SentryFormatter with a virtual clock; Python json oracle, event-id uniqueness over the whole run and across processes",
+   text="Every enumerated message is formatted by the real SentryFormatter under an interposed clock; each event must be one valid JSON object (no duplicate keys, no lone surrogates), with a 32-hex event id never seen before in the run or in another process, timestamp = message time in UTC to the second, mapped level, message.formatted = text, logger only for non-default categories, fingerprint [level, category|default, first 100 characters], and every custom attribute exactly once in its documented slot or under extra with its value intact.",
+   note="Trusted: Python's json module; slot table from docs/api/formatters.md; accept-set for the cut at a surrogate pair (99 units / U+FFFD / 100 code points / pair kept whole), never a lone surrogate."),
+})
+
 PENDING = {}
 
 def main():
